@@ -13,7 +13,7 @@ def doc1 : Doc :=
       .plain (.item (a!"_x") (.str (a!"a[1]") .bare)),
       .plain (.item (a!"_q") (.str (a!"it's") .squote)),
       .plain (.item (a!"_t") (.str (a!"line1\nline2") .text)),
-      .frame (a!"f") [.loop [a!"_l1", a!"_l2"] [[.unk, .na], [.str (a!"v") .bare, .str (a!"w x") .dquote]]] ] }]
+      .frame (a!"f") [.plain (.loop [a!"_l1", a!"_l2"] [[.unk, .na], [.str (a!"v") .bare, .str (a!"w x") .dquote]])] ] }]
 
 def layout1 : Layout := fun k => if k % 3 = 1 then [.blank 32, .eol] else [.eol]
 
